@@ -674,7 +674,7 @@ class TableAttributes(TextAttributes):
                     border_right = Border(
                         style=BroadcastValue(
                             value=self.border_right, dimension=dim
-                        ).iloc(i, j)
+                        ).iloc(i + row_offset, j)
                     )
                 else:
                     border_right = None
